@@ -2,6 +2,7 @@ import Driver.Util
 import Torf.Model.Handles
 import Torf.Model.Missing
 import Torf.Model.HandlesDisk
+import Torf.Model.HandlesIter
 open Lean Torf Torf.Handles
 namespace Driver.C19
 
@@ -276,11 +277,104 @@ def history (j : Json) : Except String Json := do
 
 end D
 
+/-! ### histories with kept (suspended) iterators (`Torf.HandlesIter`) -/
+
+namespace I
+open Torf.HandlesIter
+
+def parseOpI (j : Json) : Except String HandlesIter.Op := do
+  let name ← getStr j "op"
+  match name with
+  | "iterFull" => return .iterFull
+  | "iterAbandon" => return .iterAbandon (← getNat j "a")
+  | "getPiece" => return .getPiece (← getInt j "a")
+  | "getPieceHash" => return .getPieceHash (← getInt j "a")
+  | "verifyPiece" => return .verifyPiece (← getInt j "a")
+  | "close" => return .close
+  | "ctxExit" => return .ctxExit
+  | "iterStart" => return .iterStart
+  | "iterNext" => return .iterNext (← getNat j "s") (← getNat j "k")
+  | "iterDrop" => return .iterDrop (← getNat j "s")
+  | _ => throw s!"unknown stream op {name}"
+
+/-- the operation as one of `Torf.Handles` (for its specification), if it is one -/
+def plainOp : HandlesIter.Op → Option Handles.Op
+  | .iterFull => some .iterFull
+  | .iterAbandon k => some (.iterAbandon k)
+  | .getPiece i => some (.getPiece i)
+  | .getPieceHash i => some (.getPieceHash i)
+  | .verifyPiece i => some (.verifyPiece i)
+  | .close => some .close
+  | .ctxExit => some .ctxExit
+  | _ => none
+
+/-- what the driver remembers about a kept iterator: items yielded so far, whether every resumption
+    so far found its handle undisturbed, whether the stream was closed while it was suspended
+    inside a file, whether it was dropped -/
+structure Slot where
+  pos : Nat := 0
+  ok : Bool := true
+  closed : Bool := false
+  dropped : Bool := false
+
+/-- per step: model answer `m`, specification `s` (null when equal; for `iterNext s k` the `k` chunks
+    that follow the ones the iterator has yielded so far — none for a dropped iterator), `nopen` =
+    descriptors the object keeps open, `ntbl` = size of its table, `undisturbed` = (for `iterNext`)
+    nothing has moved or closed the handle the iterator is suspended on — now, and at every earlier
+    resumption of this iterator —, `closed` = the stream was closed (`close()` / context exit) while
+    this iterator was suspended inside a file: resuming it then is outside the property -/
+def rowsI (c : HandlesIter.Cfg Nat Dig) (spec : Handles.Op → Handles.Out Nat Dig) (all : List (List Nat)) :
+    List HandlesIter.Op → HandlesIter.Obj Nat → List Slot → List Json
+  | [], _, _ => []
+  | x :: xs, o, sl =>
+    let r := HandlesIter.run c x o
+    let (s, und, cl, sl') : Handles.Out Nat Dig × Bool × Bool × List Slot :=
+      match x with
+      | .iterStart => (.none, true, false, sl ++ [{}])
+      | .iterNext i k =>
+        let t := sl.getD i {}
+        let u := undisturbed o i && t.ok
+        let got := match r.out with | .pieces ps => ps.length | _ => 0
+        (.pieces (if t.dropped then [] else (all.drop t.pos).take k), u, t.closed,
+         sl.set i { t with pos := t.pos + got, ok := u })
+      | .iterDrop i => (.none, true, false, sl.set i { sl.getD i {} with dropped := true })
+      | .close | .ctxExit =>
+        (.none, true, false, sl.zipIdx.map fun (t, i) =>
+          match o.gens[i]? with
+          | some (.inFile ..) => { t with closed := true }
+          | _ => t)
+      | _ => ((plainOp x).map spec |>.getD .none, true, false, sl)
+    jobj [("m", outJson r.out), ("s", if s == r.out then Json.null else outJson s),
+          ("nopen", jnat r.obj.opened.length), ("ntbl", jnat r.obj.tbl.length), ("undisturbed", jbool und),
+          ("closed", jbool cl)]
+      :: rowsI c spec all xs r.obj sl'
+
+/-- op `c19.iterHistory` : {L, sizes, cap, wrong, pop?, ops} -/
+def history (j : Json) : Except String Json := do
+  let L ← getNat j "L"
+  let sizes ← getNats j "sizes"
+  let cap ← getNat j "cap"
+  let wrong := (getNats j "wrong").toOption.getD []
+  let pop := (getBool j "pop").toOption.getD false
+  let files := mkFiles sizes
+  let ops ← (← getArr j "ops").mapM parseOpI
+  let H : List Nat → Dig := fun p => (0, p)
+  let all := chunks L files.flatten
+  let stored : List Dig := all.zipIdx.map fun (p, i) => if wrong.contains i then (1, p) else (0, p)
+  let c : HandlesIter.Cfg Nat Dig :=
+    { files := files, L := L, cap := cap, geom := geomArith sizes L, H := H, stored := stored, pop := pop }
+  return jobj [("rows", jarr (rowsI c (Handles.specOut files L H stored) all ops {} [])),
+               ("hyp", jbool (L > 0 && sizes.all (· > 0))),
+               ("npieces", jnat (nPieces L sizes.sum))]
+
+end I
+
 def handle (op : String) (j : Json) : Except String Json :=
   match op with
   | "c19.history" => history j
   | "c19.damagedIter" => damagedIter j
   | "c19.diskHistory" => D.history j
+  | "c19.iterHistory" => I.history j
   | _ => throw s!"unknown op {op}"
 
 end Driver.C19
